@@ -57,6 +57,7 @@ Pso(r) ==
     /\ Name(r) = "ParticleVelocitiesUpdate" =>
           /\ r.x.moved = 1                           \* each particle moved by exactly its new velocity
           /\ r.x.vexact # 0                          \* (c1 = c2 = 0) the stored weight scaled the old velocity
+          /\ r.x.wsched # 0                          \* ... and it is the weight the schedule prescribes for this pass
     /\ Name(r) = "Linear" => r.x.wexact = 1          \* weight = linear interpolation at the loop's progress
     /\ Name(r) = "PersonalBestParticlesUpdate" =>
           /\ Len(r.x.pbr) = Len(r.topr) /\ Len(prev.x.pbr) = Len(r.topr)
